@@ -185,10 +185,15 @@ fn read_item(it: &Item, what: &str) -> Result<(), Violation> {
         // the big document [1,2,1,2,...] is not kept as a model tree (200 000 nodes): its elements are a formula
         return libcall("read big", || {
             let a = it.v.as_array().ok_or_else(|| Violation::new("mismatch/as_array", format!("{}: big document is not an array", what)))?;
-            if a.len() != BIG_N {
-                return Err(Violation::new("mismatch/array.len", format!("{}: {} != {}", what, a.len(), BIG_N)));
+            // (its length is all the model keeps)
+            let n: usize = match &it.m {
+                J::Num(n) => n.parse().expect("big length"),
+                _ => BIG_N,
+            };
+            if a.len() != n {
+                return Err(Violation::new("mismatch/array.len", format!("{}: {} != {}", what, a.len(), n)));
             }
-            for i in [0, 1, 2, BIG_N / 2, BIG_N / 2 + 1, BIG_N - 2, BIG_N - 1] {
+            for i in [0, 1, 2, n / 2, n / 2 + 1, n - 2, n - 1] {
                 oracle::check_scalars(&a[i], &big_elem(i), what)?;
             }
             Ok(())
@@ -927,7 +932,7 @@ fn thread_body(t: usize, nthreads: usize, nops: u32, cfg: GenCfg, errs: Arc<Mute
                 }
                 // ---- drop
                 _ => {
-                    if !bag.is_empty() {
+                    if !bag.is_empty() && !(allow_big && chance(1, 4)) {
                         let i = draw(bag.len() as u32) as usize;
                         let it = bag.swap_remove(i);
                         tr!("T{} drop #{}", t, i);
@@ -935,8 +940,9 @@ fn thread_body(t: usize, nthreads: usize, nops: u32, cfg: GenCfg, errs: Arc<Mute
                         libcall("drop", move || drop(v))?;
                         release(&origins);
                     } else if allow_big && chance(1, 3) {
-                        // a document big enough for the node buffer's heap fallback
-                        let n = BIG_N;
+                        // a document big enough for the node buffer's heap fallback, or just below it: the
+                        // thread-local buffer then grows (by doubling) across parses of rising size
+                        let n = *pick(&[30_000usize, 99_000, 120_000, 160_000, 196_000, BIG_N]);
                         let mut text = String::with_capacity(2 * n + 2);
                         text.push('[');
                         for k in 0..n {
@@ -949,7 +955,7 @@ fn thread_body(t: usize, nthreads: usize, nops: u32, cfg: GenCfg, errs: Arc<Mute
                         tr!("T{} parse big document ({} elements)", t, n);
                         let id = new_doc_id();
                         let v = libcall("from_str(big)", || sonic_rs::from_str::<Value>(&text))?.map_err(|e| parse_err("from_str(big)", "[1,2,...]", e))?;
-                        bag.push(Item { v, m: J::Null, origins: vec![id], big: true });
+                        bag.push(Item { v, m: J::Num(n.to_string()), origins: vec![id], big: true });
                     }
                 }
             }
